@@ -96,7 +96,7 @@ open LZ4V.Model.FastX in
 theorem stream_reuse_decodes_since_reset_only (hashOf : Array UInt8 → Bool → Nat → Nat) (ops : List Op) (k addr : Nat) (data : Array UInt8) (acc : Int) (cap : Nat)
     (blk : List UInt8) (hop : ops[k]? = some (.compress addr data acc cap)) (h : (run hashOf {} ops)[k]? = some (.block (some blk))) :
     decode (histAt [] ops k) blk = some data.toList :=
-  (run_parsed hashOf ops {} [] JX_init (IsTail.refl _) k addr data acc cap blk hop h [] _ rfl (Or.inl rfl)).decode
+  (run_parsed hashOf ops {} [] Inv_init k addr data acc cap blk hop h [] _ rfl (Or.inl rfl)).decode
 
 open LZ4V.Model.FastX in
 /-- the history restarts at a reset: whatever preceded it -/
